@@ -289,6 +289,12 @@ def run(tier='quick'):
     B8 = chk.rule('B8', 'the util helpers that carry nullable columns to optional row fields and back '
                         '(optional<A> -> optional<B>) yield a value exactly when given one', floor=4)
     rowrules.optional_lifts(prog, chk, B8)
+    B13 = chk.rule('B13', 'every SQL statement executes where it is written (its binder is a temporary of the full '
+                          'expression): a statement kept in a named binder runs at the end of its scope, after the '
+                          'rows_modified() / last_insert_rowid() test written behind it, which then judges the previous '
+                          'statement of the connection', floor=100)
+    from . import c14 as _c14
+    _c14.immediate_statements(prog, eff, chk, B13)
     return chk.finish('statement-level analysis of the five 2.x table classes: %d statement instances '
                       'parsed from string literals, binds and sinks resolved to row fields through the '
                       'type-checked AST, names resolved against the DDL of all %d 2.x versions' % (
